@@ -22,17 +22,18 @@ type lifeEv struct {
 }
 
 type lifeRecorder struct {
-	mu     sync.Mutex
-	on     bool
-	evs    []lifeEv
-	server map[uint64]bool // services in the broker role that have started
-	done   map[uint64]bool
-	out    *bufio.Writer
-	f      *os.File
-	recs   int
-	events int
-	every  int // keep every n-th recording (the validation cost is linear in the events kept)
-	nth    int
+	mu       sync.Mutex
+	on       bool
+	evs      []lifeEv
+	server   map[uint64]bool // services in the broker role that have started
+	done     map[uint64]bool
+	lastProc map[uint64]bool // the last recorded event of the connection was a proc event
+	out      *bufio.Writer
+	f        *os.File
+	recs     int
+	events   int
+	every    int // keep every n-th recording (the validation cost is linear in the events kept)
+	nth      int
 }
 
 var lifeRec *lifeRecorder
@@ -77,6 +78,15 @@ func (lr *lifeRecorder) sink(seq uint64, ev string, svc uint64, a, b, c int64, s
 	if ev == "proc" || ev == "stop.done" {
 		w = 0
 	}
+	if ev == "proc" {
+		// "a packet was handled" says the same thing twice in a row: one event per run of packets of a connection
+		if lr.lastProc[svc] {
+			return
+		}
+		lr.lastProc[svc] = true
+	} else {
+		lr.lastProc[svc] = false
+	}
 	lr.evs = append(lr.evs, lifeEv{seq, ev, svc, w})
 }
 
@@ -87,7 +97,7 @@ func (lr *lifeRecorder) begin() {
 	}
 	lr.mu.Lock()
 	lr.nth++
-	lr.on, lr.evs, lr.server, lr.done = lr.nth%lr.every == 0, nil, map[uint64]bool{}, map[uint64]bool{}
+	lr.on, lr.evs, lr.server, lr.done, lr.lastProc = lr.nth%lr.every == 0, nil, map[uint64]bool{}, map[uint64]bool{}, map[uint64]bool{}
 	lr.mu.Unlock()
 }
 
